@@ -331,11 +331,108 @@ def is_sub(t, want):
     return any(s == want for s in subterms(t))
 
 
+def units(ctx, prog):
+    """bodies of the validation units: structure, status (RevocationBitmap2022 path), subject-holder relationship"""
+    A = Auditor(ctx, prog)
+    S = prog.structs
+    CR = S['Credential']
+    RU = {'scenario': 'credential_validation', 'cex': {'only': '[unit]'}}
+
+    # ---- Credential::check_structure: base context *first*, base type present, at least one subject, no empty subject
+    f = prog.one(r'credential::credential::<impl at [^>]*>::check_structure$')
+    paths, ex = A.paths(f, unwind=2, allow_bound=True)
+    ctx.bounds.append('check_structure: subject loop unrolled twice')
+
+    def selff(name):
+        return ('field', ('deref', ('leaf', 'self')), CR.index(name), '')
+
+    def is_self_field(t, name):
+        fp = field_path(strip(t))
+        return bool(fp) and fp[0] == 'self' and [i for _, i in fp[1]][:1] == [CR.index(name)]
+
+    def r_struct(p):
+        if p.kind != 'return':
+            return 'panic ' + p.msg
+        if not p.is_ok():
+            return None
+        g = [c for c in p.find_calls(r'OneOrMany.*::get$') if is_self_field(c.args[0], 'context') and strip(c.args[1]) == ('const', 0) and p.took(c, 'Some')]
+        if not g:
+            return 'accepted without reading the context at position 0'
+        first = ('field', g[0].ret, 0, 'Some')
+        eqs = [c for c in p.find_calls(r'PartialEq.*>::eq$') if is_sub(c.args[0], first) and apps(c.args[1], r'base_context$') and p.took(c.ret, 'true')]
+        if not eqs:
+            return 'accepted without the first context comparing equal to the base context'
+        anyc = [c for c in p.calls if re.search(r'Iterator>::any$', c.name) and mentions(c.args, r'^self$') and p.took(c.ret, 'true')]
+        if not any(apps(c.args[0], r'OneOrMany::iter$') and is_self_field(apps(c.args[0], r'OneOrMany::iter$')[0][2][0], 'types') for c in anyc):
+            return 'accepted without the base type being found among the types'
+        ie = [c for c in p.find_calls(r'OneOrMany.*::is_empty$') if is_self_field(c.args[0], 'credential_subject') and p.took(c.ret, 'false')]
+        if not ie:
+            return 'accepted without at least one subject'
+        return None
+    A.require('check_structure/base-context-first-base-type-some-subject', paths, r_struct, replay=RU)
+
+    # ---- check_status (RevocationBitmap2022): a status is skipped only by SkipAll, or by SkipUnsupported for *another type*;
+    #      a status of the supported type that does not convert, or whose issuer / service / index lookup fails, is an error
+    f = prog.one(r'jwt_credential_validator_utils::<impl at [^>]*>::check_status$')
+    paths, ex = A.paths(f, inline=r'check_status::\{closure')
+    SC = prog.enums['StatusCheck']
+
+    def r_status(p):
+        if p.kind != 'return':
+            return 'panic ' + p.msg
+        if not p.is_ok():
+            return None
+        def mode_is(name):
+            return any(p.took(c.ret, 'true') for c in p.find_calls(r'StatusCheck as PartialEq>::eq$') if name in term_str(c.args[1]) and mentions(c.args[0], r'^status_check$')) or \
+                p.implies(ex.discr_var(('leaf', 'status_check')) == z3.BitVecVal(SC[name], 64))
+        if mode_is('SkipAll'):
+            return None
+        cs = ('field', ('deref', ('leaf', 'credential')), CR.index('credential_status'), '')
+        if p.took(cs, 'None'):
+            return None
+        conv = [c for c in p.calls if re.search(r'RevocationBitmapStatus as .*TryFrom<.*Status>>::try_from$|RevocationBitmapStatus::try_from$', c.name)]
+        if any(p.took(c, 'Err') for c in conv):
+            return 'a RevocationBitmap2022 status that does not convert is accepted'
+        chk = [c for c in p.find_calls(r'check_revocation_bitmap_status$') if p.took(c, 'Ok')]
+        if chk:
+            if not conv or not is_sub(chk[0].args[1], ('field', conv[0].ret, 0, 'Ok')):
+                return 'bitmap checked for something that is not the converted status'
+            return None
+        # accepted without the bitmap check: only an unsupported *type* under SkipUnsupported
+        tyne = [c for c in p.find_calls(r'PartialEq.*>::(ne|eq)$') if mentions(c.args, r'^credential$') and
+                p.took(c.ret, 'true' if c.name.endswith('::ne') else 'false')]
+        if tyne and mode_is('SkipUnsupported') and not conv:
+            return None
+        return 'status accepted without the bitmap check, SkipAll, or an unsupported type under SkipUnsupported'
+    A.require('check_status/skipped-only-as-configured-else-bitmap-checked', paths, r_status, replay=RU)
+
+    # ---- check_revocation_bitmap_status: Ok iff the resolved bitmap does not contain the status index
+    f = prog.one(r'jwt_credential_validator_utils::<impl at [^>]*>::check_revocation_bitmap_status$')
+    paths, ex = A.paths(f, inline=r'check_revocation_bitmap_status::\{closure')
+
+    def r_rbs(p):
+        if p.kind != 'return':
+            return 'panic ' + p.msg
+        if not p.is_ok():
+            return None
+        rb = [c for c in p.find_calls(r'resolve_revocation_bitmap$') if p.took(c, 'Ok')]
+        ix = [c for c in p.find_calls(r'RevocationBitmapStatus::index$') if p.took(c, 'Ok') and mentions(c.args, r'^status$')]
+        ir = [c for c in p.find_calls(r'is_revoked$') if p.took(c.ret, 'false')]
+        if not rb or not ix or not ir:
+            return 'accepted without resolve_revocation_bitmap / index / is_revoked == false'
+        idx = ir[0].argvals[1] if len(ir[0].argvals) > 1 else None
+        same_idx = isinstance(idx, VInt) and p.implies(idx.e == ex.sym_int(('field', ix[0].ret, 0, 'Ok'), 32).e)
+        if not is_sub(ir[0].args[0], ('field', rb[0].ret, 0, 'Ok')) or not same_idx:
+            return 'membership tested on another bitmap or index'
+        return None
+    A.require('check_revocation_bitmap_status/accepted-only-if-index-not-in-the-issuers-bitmap', paths, r_rbs, replay=RU)
+
+
 def main(ctx):
     prog, info = load(CRATES, src_only=SRC)
     ctx.extra['mir'] = info
     ctx.bounds.append('all paths of validate / verify_signature_with_verifier / parse_jwk / verify_decoded_signature; '
                       'validate_decoded_credential evaluated over all 2^5 unit outcomes x fail-fast mode x option presence')
-    ctx.outside += ['JSON parsing of claims/headers', 'cryptographic verification', 'check_structure / check_subject_holder_relationship / check_status bodies '
-                    '(iterator code; status membership is C06)', 'CoreDocument::resolve_method (C04)']
+    ctx.outside += ['JSON parsing of claims/headers', 'cryptographic verification', 'check_subject_holder_relationship body (iterator code over the subjects)', 'CoreDocument::resolve_method (C04)']
     guarded(ctx, 'credential validation audit', 'M', lambda: run(ctx, prog))
+    guarded(ctx, 'validation unit bodies', 'M', lambda: units(ctx, prog))
